@@ -44,3 +44,26 @@ func Starvation(procs, floodMs, boundMs int) hx.Sx {
 		hx.L(hx.I(5), hx.I(2), hx.I(100), js("b"), hx.I(floodMs), hx.I(200)))
 	return hx.L(cfg, hx.L(f), hx.L())
 }
+
+// TimeoutVsPut builds the directed schedule "the heartbeat's time-out check races with a put": e1 is
+// held (stream blocked, older than the event time-out), the heartbeat is held right before tryUnblock;
+// e2 is put and the heartbeat released at the same instant (order chosen by `putFirst`), so tryUnblock
+// runs in the window between the put and the woken owner re-locking the stream.
+func TimeoutVsPut(procs int, putFirst bool, sync bool) hx.Sx {
+	ev := func(off int, ops string) hx.Sx {
+		return hx.L(hx.I(0), hx.I(1), hx.I(off), hx.S(fmt.Sprintf(`{"stream":"a","ops":"%s","m":"111"}`, ops)))
+	}
+	outKind := 1
+	if sync {
+		outKind = 0
+	}
+	cfg := hx.L(hx.I(procs), hx.I(0), hx.I(8), hx.I(30), hx.I(1), hx.I(outKind), hx.I(1), hx.I(4), hx.I(15), hx.I(0), hx.I(0), hx.I(0), hx.I(1))
+	ops := []hx.Sx{ev(10, "h"), hx.L(hx.I(2)), hx.L(hx.I(1), hx.I(45))}
+	if putFirst {
+		ops = append(ops, ev(20, "p"), hx.L(hx.I(3)))
+	} else {
+		ops = append(ops, hx.L(hx.I(3)), ev(20, "p"))
+	}
+	ops = append(ops, hx.L(hx.I(1), hx.I(30)), ev(30, "p"))
+	return hx.L(cfg, hx.L(hx.L(ops...)), hx.L())
+}
